@@ -131,6 +131,17 @@ func (p *c17) build(seed uint64, tier string) []SendScenario {
 					add("NOOP-1", "NOOP", 1)
 					add("RSET-1", "RSET", 1)
 				}
+				if usesTLS && (op == "dial" || op == "dialandsend") {
+					// the first dial fails and the connection is made through the fallback port
+					for _, ps1 := range ps {
+						s := base("fallback:" + ps1.label + "/stall")
+						s.Client.FallbackPort = true
+						s.Client.TLSPolicy = "opportunistic" // WithTLSPortPolicy sets a fallback port for this policy only
+						s.DialFail = 1
+						s.Server.Rules = []refsmtpd.Rule{{Verb: ps1.verb, Nth: ps1.nth, Action: refsmtpd.Action{Kind: "stall"}}}
+						out = append(out, s)
+					}
+				}
 				for _, ps1 := range ps {
 					for _, how := range []string{"stall", "start", "mid"} {
 						s := base(ps1.label + "/" + how)
